@@ -53,14 +53,20 @@ func sortLabelEntries(entries []labelEntry) {
 
 // By returns new set of labels containing only given list of labels.
 func (a *aggregatedLabels) By(labels ...logql.Label) logqlmetric.AggregatedLabels {
-	if len(labels) == 0 {
-		return a
+	// NOTE: nil `by` set means that there is no restriction yet, non-nil (even empty) set
+	// 	is a list of labels to keep: `by ()` keeps nothing.
+	by := make(map[string]struct{}, len(labels))
+	for _, label := range labels {
+		// Labels removed by previous grouping could not reappear.
+		if _, ok := a.by[string(label)]; ok || a.by == nil {
+			by[string(label)] = struct{}{}
+		}
 	}
 
 	sub := &aggregatedLabels{
 		entries: a.entries,
 		without: a.without,
-		by:      buildSet(maps.Clone(a.by), labels...),
+		by:      by,
 	}
 	return sub
 }
@@ -173,7 +179,7 @@ func (a *aggregatedLabels) forEach(cb func(k, v string)) {
 		if _, ok := a.without[e.name]; ok {
 			continue
 		}
-		if len(a.by) > 0 {
+		if a.by != nil {
 			if _, ok := a.by[e.name]; !ok {
 				continue
 			}
